@@ -422,7 +422,7 @@ impl Run {
                             let stats = RefCell::new(Stats::default());
                             let failed = RefCell::new(None::<Failure>);
                             let count = RefCell::new(0usize);
-                            let r = runner.run(&vec(any::<u32>(), 0..=tape_len), |tail| {
+                            let r = runner.run(&vec(any::<u32>(), (tape_len / 3)..=tape_len), |tail| {
                                 let mut tape = prefix.to_vec();
                                 tape.extend_from_slice(&tail);
                                 if stop.load(Ordering::Relaxed) && failed.borrow().is_none() {
